@@ -129,6 +129,10 @@ def tasks(tier, seed):
     for p in ([620, 1001] if not th else [601, 2001, 3001]):
         for name in ('exp', 'log', 'sin', 'cos', 'tan', 'atan', 'sinh', 'cosh', 'tanh', 'sqrt', 'asin', 'expm1', 'log1p', 'sinpi', 'cospi', 'cbrt'):
             out.append(('hp', name, p, th, seed))
+    if not th:
+        # the exp(-2x)-vanishes shortcut of cosh/sinh/tanh is keyed on 2^mag against the precision: its window for |x| = 1024 is 2941..3058 bits
+        for name in ('sinh', 'cosh', 'tanh'):
+            out.append(('hp', name, 3001, th, seed))
     for p in precs:
         for name in FUNCS:
             out.append(('f1', name, p, th, seed))
